@@ -48,6 +48,14 @@ def run(ctx):
         "how a source ends (io.EOF, io.ErrUnexpectedEOF, a foreign error, alone or together with the last "
         "bytes) and (0, nil) reads are fragmentation: every kind means 'no more bytes'; transient source "
         "errors in the middle of the data are outside the property",
+        "stream sources are also the standard library's readers (bytes.Reader, strings.Reader, bufio.Reader, "
+        "iotest.OneByteReader / HalfReader, io.MultiReader, bytes.Buffer), handed to NewReaderX as they are; "
+        "a source may end with any exported error of io / bytes / bytex, plain or wrapped, after or with its "
+        "last bytes (all mean 'no more bytes')",
+        "in histories rendered at once the caller overwrites and appends into every slice ReadN returned and "
+        "goes on reading; zero-length arguments are nil every other time; a raw slice is passed to Write twice",
+        "bytex keeps no operation counters: runs of 255/256/257 writes+reads and of 255/256/257 write/read/empty "
+        "cycles are plain events; 2^16 is met on payload lengths and on stream offsets (items straddling 65536)",
         "string / raw payloads above 256 bytes are logged by reference (<<-1, length, FNV-1a digest, first and "
         "last 4 bytes>>, the same function of the bytes for written and returned values); TLC compares them "
         "by reference and takes the length from the reference",
@@ -66,7 +74,8 @@ def run(ctx):
              "bytes, everything, or irregular pieces; one BufferX lives through 1..3 such write / read-back "
              "cycles (emptied by Reset() or by draining to io.EOF; small capacities force data moves; some lifetimes write nothing or are given "
              "up after the writes; while a buffer is read back more items are written behind the unread ones), "
-             "plans run three to a buffer and carry payloads of 1025, 4095 and 8192 bytes; every fifth history has "
+             "one lifetime in four is replayed unchanged on the recycled buffer; buffers are filled exactly "
+             "to the capacity they were built with; rewrites on an empty buffer; plans run three to a buffer and carry payloads of 1025, 4095 and 8192 bytes; every fifth history has "
              "payloads of k*2^j and k*2^j+-1 bytes (2^j in 256..65536, k <= 4) as strings, limited strings and raw "
              "bytes, read through BufferX and up to five source modes; every constructor; sources that end in 4 ways and return (0, nil); arbitrary / damaged bytes to every reader",
         explanation="every typed read must return the written token and the remaining length the items "
